@@ -12,671 +12,816 @@ Definition show_fres (r : fres) : string :=
   end.
 Definition check (rs : list rune) : string := digest (show_fres (format_res rs)).
 Definition full (rs : list rune) : string := show_fres (format_res rs).
-Eval vm_compute in ("<<<M1793>>>" ++ check (runes_of_ascii "packet metadata {
-    repeat f64 Foo,
-    repeat Logon f32a `
-        `,
-    @calculatedFrom(""1"")
-    repeat uint8 calculatedFrom `u8 x,`,
-    char[] packetx,// packet A { u8 x, }
-    @calculatedFrom(""abc"")
-    Pad @lengthOf(msg_type) `line1
-        line2`,
-    @rightPad(' ')
-    tag `" ++ [233]%N ++ runes_of_ascii "`,
-    @tag(10)
-    u8x @calculatedFrom(""CRC32""),
-    match metadata as msg_type {
-        [0123456789, ""\n""] : options1,
-        ""\n"" : float,
-    },
-}
-
-packet MetaDataX {
-    string string_ `doc`,
-    @rightPad('0')
-    zchar[00] zchar `a\`,
-}
-
-options {
-    leftPad = 0
-    float = 4294967296;
-}// `tick` ""quote"" 'q'
-
-root packet body {
-    @calculatedFrom(""1"")
-    @lengthOf(int)
-    match float as Z9_ {
-        // packet A { u8 x, }
-        // trailing space 
-        42 : x,
-        ""packet"" : matchKey,
-        """ ++ [28040; 24687]%N ++ runes_of_ascii """ : o,
-        255 : float,
-    },
-    @tag(0123456789)
-    match calculatedFrom as trueish {
-        [""packet"", ""`tick`"", """ ++ [233]%N ++ runes_of_ascii "t" ++ [233]%N ++ runes_of_ascii """] : MetaDataX,
-        4294967296 : trueish,
-        3 : i64_,
-        0123456789 : f32a,
-        [
-            7, 10, ""CRC32"", ""x y"", ""\n"",
-            ""CRC32"", ""`tick`""
-        ] : body,
-    },
-    char[1] Foo,
-    @rightPad(' ')
-    @calculatedFrom(""a	b"")
-    repeat string_ {
-        repeat Logon,
-        Z9_ i8i8,
-        match Z9_ as A {
-            [42] : Logon,
-            [
-                1, 4294967296, 0, ""CRC32"", ""a\""b"",
-                ""\" ++ [233]%N ++ runes_of_ascii """
-            ] : roots,
-            ""a\""b"" : MetaDataX,
-            255 : _x,
-            65535 : rootA,
-        },
-        match _x as Foo {
-            [255, """ ++ [28040; 24687]%N ++ runes_of_ascii """, ""CRC32"", """ ++ [233]%N ++ runes_of_ascii "t" ++ [233]%N ++ runes_of_ascii """, ""abc""] : len,
-            ""a\\"" : Pad,
-            0 : falsey,
-            3 : u128,
-        },// a // b
-    },
-    repeat options1 int `{ , }`,
-}")).
-Eval vm_compute in ("<<<M123>>>" ++ check (runes_of_ascii "
-packet _x{  leftPad `it's`
-    , match Logon as
-    matchKey { ""packet"" :  stringy,3
-: u
-    ,//
-""1"" : Pad }
-,  float32 Z9_ @lengthOf( i8i8	)
-    `" ++ [233]%N ++ runes_of_ascii "`
-    // " ++ [27880; 37322]%N ++ runes_of_ascii "
-    , @tag( 3 )match
-    //	t
-    As as Pad{
-"""" : chars
-, ""x y"" //
-: i64_	,  } ,  @calculatedFrom(""it's"" // c
-) @leftPad ( ' '
-) zchar[ 0123456789	] falsey , match	A as packetx
-{ [ 42]:
-matchKey // c
-, }// `tick` ""quote"" 'q'
-,@leftPad
-( ' ' )
-    match x
-    // c
-    as a1 { ""packet"" //x
-:
-    a1 , 10 : pack""{,}"" :  u8x// a // b
-, [ 007
-,00// trailing space 
-]
-:trueish ,
-    ""x y"" :pack //	t
+Eval vm_compute in ("<<<M165>>>" ++ check (runes_of_ascii "packet falsey { char[7
+    ]
+Foo @calculatedFrom( ""CRC32"" ) , @tag(
+    //
+    10)	u8 Packet`" ++ [233]%N ++ runes_of_ascii "` ,repeat  stringy
 ,
-""" ++ [233]%N ++ runes_of_ascii "t" ++ [233]%N ++ runes_of_ascii """
-:
-matchKey , } , @leftPad ( '0'
-) uint8x u
-    ,	zchar[
-    3 // a // b
-]
-    //	t
-    u ``
-    , @rightPad (
-    ' ') repeat _x
-`` , } MetaData Foo
-    {a1 Z9_ ,
-options1 T ,u32 u8x
-`crlf
-line`, metadata falsey,lengthOf
-x_y_z ,
-    } packet calculatedFrom { @tag( 3 ) string A,
-    match leftPad as a1	{//	t
-0123456789: calculatedFrom , }
-    ,
-    match crc//
-as
-    body {
-    00 : _x, } , o @calculatedFrom(	""x y"" )
-//
-// " ++ [128512]%N ++ runes_of_ascii " emoji
-,  } packet T { }  packet Logon { @leftPad
-(// @lengthOf(
-'\x00' )
-As @calculatedFrom(
-""a	b"" ) `line1
-line2`	, pack lengthOf // `tick` ""quote"" 'q'
-, } // `tick` ""quote"" 'q'")).
-Eval vm_compute in ("<<<M8>>>" ++ check (runes_of_ascii "// @lengthOf(
-packet Pad { zchar[
-    0 ]Header @calculatedFrom(
-""a	b"" ) // " ++ [27880; 37322]%N ++ runes_of_ascii "
-`say ""hi""` , @calculatedFrom(
-    ""a\""b"" // a // b
-)  body @lengthOf( body// `tick` ""quote"" 'q'
-)`say ""hi""` , u16 stringy@lengthOf(
-    // trailing space 
-    trueish ) , @lengthOf( rootA) f64 Foo `say ""hi""` // c
-,u16 Z9_ , x_y_z , }
-    MetaData metadata { uint64 x , trueish chars//
-,
-    asx lengthOf `u8 x,`  ,
-} options { body // a // b
-=	""packet"" } root
-    packet MetaDataX {zchar[
-42	]
-a1
-,Packet x_y_z // " ++ [27880; 37322]%N ++ runes_of_ascii "
-, u8 Foo
-    `u8 x,` , u64
-//	t
-/// triple
-tag, @tag( 1 //x
-)  string x_y_z @calculatedFrom( ""x y"" ) ,f32 Logon	, _x ,charz // a // b
-{
-    rootA metadata `crlf
-line`
-    , Header @calculatedFrom( ""\" ++ [233]%N ++ runes_of_ascii """ ) `` ,
-i64_`line1
+@lengthOf( // a // b
+float)tag { repeat
+    u8x {
+int16 charz@lengthOf(trueish ) , //	t
+repeat  string calculatedFrom,
+charz @calculatedFrom(  ""a\""b""
+)	`line1
 line2`
-    // @lengthOf(
-    , } ,@lengthOf(
-a1// `tick` ""quote"" 'q'
-) string
-As	`doc`
-    , @tag(
-1 ) match As
-    as	trueish
-    //	t
-    {
-    [ ""`tick`""
-    // trailing space 
-    ] :charz,  ""packet"": asx , 42  :
-packetx, [ ""a\\"" ] :
-u }
 ,
-}
-/// triple
-")).
-Eval vm_compute in ("<<<M1361>>>" ++ check (runes_of_ascii "options
-
-{  FixedStringPadFromLeft
-= true
-	;
-FixedStringPadChar = '0' ;}packet
-
-Leg{ repeat InSym93
-	{
-
-zchar[
-3
-]
-	Acct,
-string
-Side2 , i32 Flags
-    ,f32
-	Note ,i32 msgKind ,
-
-    }	, f64
-Note	, uint16	Px
-
-    , }
+},u64
+    MetaDataX @calculatedFrom( """ ++ [128512]%N ++ runes_of_ascii """
+    ) `" ++ [233]%N ++ runes_of_ascii "`
+    ,rootA
+    // packet A { u8 x, }
+    {
+    repeat	u64 BodyLength
+`" ++ [233]%N ++ runes_of_ascii "` , pack @calculatedFrom( //x
+""{,}"" )
+    `" ++ [28040; 24687; 31867; 22411]%N ++ runes_of_ascii "` ,repeat // c
+x charz,
+},
+    // a // b
+    char[] packetx, }	, // `tick` ""quote"" 'q'
+calculatedFrom , u x_y_z
+,repeat	int	i64_ ,@leftPad (
+    ' '
+)u32 T @calculatedFrom( ""{,}"" )
+, repeat
+    metadata , } root packet
+chars
+{ char[	65535
+]  pack @lengthOf( As ) `tab	here` , char[
+255] msg_type `// not a comment`
+    ,@calculatedFrom(
+    ""// no comment"" ) @tag( //	t
+0 ) @tag(10 ) repeat Header {
+    char[]
+// @lengthOf(
+// " ++ [27880; 37322]%N ++ runes_of_ascii "
+i64_,repeat T//x
+`` ,match uint8x	as i64_ {
+00// `tick` ""quote"" 'q'
+: _x ,	65535: //
+Z9_,
+""1""
+: u8x ,
+007 : Z9_
+, 255
+:
+matchKey
+""1"" :
+crc , } , } ,
+    @calculatedFrom(	""packet""	) match int as x_y_z{ 0123456789 :	Logon
+    // @lengthOf(
+    ,
+    //	t
+    [ 0123456789, ""it's"" ]
+:
+int
+    , [""a	b"" , ""CRC32"" , 0, 4294967296 , """"	] :
+pack , 0 : u , } , match // @lengthOf(
+string_ as
+int
+{ 0: repeatCount [ ""abc""
+    ] : // " ++ [27880; 37322]%N ++ runes_of_ascii "
+float 007: msg_type , [
+    ""a\""b""	]:
+charz , } , i16 MetaDataX`say ""hi""`, repeat u `tab	here` , repeat falsey  { repeat i8 lengthOf `a\` ,
+    repeatCount@lengthOf( o)
+    `{ , }`,}, }packet rootA
+    { calculatedFrom//	t
+@calculatedFrom( ""x y"") ,
+char Pad @calculatedFrom( ""a\""b"" ) `" ++ [233]%N ++ runes_of_ascii "`
+    , @leftPad
+( '\x00' )	repeat float64 tag ,
+    // " ++ [27880; 37322]%N ++ runes_of_ascii "
+    @calculatedFrom( ""1"") repeat Foo ,  } // " ++ [27880; 37322]%N)).
+Eval vm_compute in ("<<<M1330>>>" ++ check (runes_of_ascii "// top
+packet // c0a
+  // c0b
+Frame // c1a
+  // c1b
+{ // c2a
+  // c2b
+u8 // c3
+HK // c4
+,
+    // c5
+u8
+    // c6
+BK // c7
+, // c8a
+  // c8b
+u8 // c9
+TK // c10
+, // c11a
+  // c11b
+match // c12
+HK as Hdr // c15a
+  // c15b
+{ // c16
+1
+    // c17
+:
+    // c18
+HdrA , 2 // c21
+:
+    // c22
+HdrB // c23
+, // c24a
+  // c24b
+} ,
+    // c26
+match
+    // c27
+BK as
+    // c29
+Body // c30
+{
+    // c31
+1 : // c33a
+  // c33b
+BodyA // c34
+,
+    // c35
+2 :
+    // c37
+BodyB , } // c40a
+  // c40b
+, // c41
+match // c42
+TK
+    // c43
+as // c44
+Trl // c45a
+  // c45b
+{ // c46a
+  // c46b
+1
+    // c47
+: // c48
+TrlA , // c50a
+  // c50b
+} // c51a
+  // c51b
+, // c52a
+  // c52b
+} // c53a
+  // c53b
+packet HdrA // c55
+{ u8 // c57
+a // c58a
+  // c58b
+, // c59
+} // c60
+packet // c61a
+  // c61b
+HdrB
+    // c62
+{ // c63a
+  // c63b
+u16
+    // c64
+b // c65
+, // c66
+} // c67
+packet // c68
+BodyA { // c70a
+  // c70b
+u32
+    // c71
+c // c72
+, } // c74
 packet
-	Quote {zchar[2] 
-OrderId	, 
+    // c75
+BodyB {
+    // c77
+u64 // c78a
+  // c78b
+d // c79
+, // c80a
+  // c80b
+} // c81a
+  // c81b
+packet TrlA // c83a
+  // c83b
+{
+    // c84
+u8 e // c86
+,
+    // c87
+} // c88a
+  // c88b
+root // c89a
+  // c89b
+packet
+    // c90
+Msg
+    // c91
+{ Frame , // c94a
+  // c94b
+u8 // c95a
+  // c95b
+x // c96a
+  // c96b
+, // c97a
+  // c97b
 }
-	packet Ack{ repeat	string
-lastPx 
-, 
-zchar[4 
-]price , uint32 OrderId
-	,	Quote,
+    // c98
+")).
+Eval vm_compute in ("<<<M1881>>>" ++ check (runes_of_ascii "root
+    packet u 
+{ 
+match  //x
 
-    int8
+  T
 
-    Acct
+as body	// c
+  {	[
+""a\""b"", 3
 
-    ,
+    ]
+:
 
-} packet	Fill
+    stringy ""a	b""
+	:
+	charz // a // b
+, 10	:
 
-    {repeat
-    Leg
-    ,
+    lengthOf 	 // " ++ [128512]%N ++ runes_of_ascii " emoji
+  	, 
+""CRC32""
+:	falsey
+,0123456789
+	:	_x ,
 
-    @rightPad
+    }
 
-    (
-	'0' 
-)	char[
+,
+	body
+    @lengthOf( i64_ ) ,
 
-11 ]	Note , 
-f64  Px ,
+    u64
+	chars
+`u8 x,`  , T
 
-@rightPad  (	'\x00'
+{  i64_
 
-    )	char[  5
-] Flags 
-, 
+    string_
+    , 
+u32
+    metadata
+
+,
 zchar[
-9]
+
+    1
+	] Z9_	, }
+
+    // c
+,
+
+    @calculatedFrom(
+""a\\"" 
+)
+rootA 	 // " ++ [128512]%N ++ runes_of_ascii " emoji
+	x_y_z	`u8 x,`
+
+,
+
+    zchar[ 007 ] body @calculatedFrom(
+
+    ""\n""
+)
+,
+@leftPad
+	(
+    '0' )
+@rightPad('0'
+    )	@calculatedFrom(
+""" ++ [233]%N ++ runes_of_ascii "t" ++ [233]%N ++ runes_of_ascii """ )repeat
+uint64 
+A ,
+repeat u8x	{
+match o
+as
+
 x
 
-    ,string 
-msgKind ,
-} root
-    packet Order	{	Leg , repeat Ack 
+    {10  :
+
+charz 
+
+// " ++ [27880; 37322]%N ++ runes_of_ascii "
+	// " ++ [27880; 37322]%N ++ runes_of_ascii "
+  ,
+
+""a	b"":matchKey
+
+    , ""x y""
+:trueish
 ,
-@rightPad (
-    '\x00')
-char[
-3  ] Side2,
 
-    repeat
-    char[ 
-1
-]
+    [
+""" ++ [233]%N ++ runes_of_ascii "t" ++ [233]%N ++ runes_of_ascii """
 
-    seqNo
+]:
 
-,	u16
+    zchar
+	,
+""1""
 
-    clOrdID
-    ,
-match
-    clOrdID
+:  charz	// " ++ [27880; 37322]%N ++ runes_of_ascii "
 
-as Body
-	{ 198 
-: Leg,
-
-    23
-:
-	Quote
-	, 13 
-:
-Ack ,159
-:
-	Fill
-,
-	}	,	u32	venue
-
-@calculatedFrom( 
-""CRC32"" 
-)
-    ,
-
-}")).
-Eval vm_compute in ("<<<M280>>>" ++ check (runes_of_ascii "packet	crc{@lengthOf( stringy// a // b
-) @leftPad (
-'0'
-    ) @calculatedFrom(
-""packet"" )
-repeat char[
-    // c
-    3]  i64_ // a // b
-, match
-    options1	as o { 255 :msg_type
-,
-    ""\n"": MetaDataX , 42: msg_type """ ++ [128512]%N ++ runes_of_ascii """
-    : lengthOf,""// no comment"" :falsey , }
-/// triple
-// trailing space 
-, @leftPad( )
-    @lengthOf( A
-    ) @calculatedFrom( ""x y"" ) uint32// a // b
-charz `doc`, len ,@calculatedFrom( ""// no comment"" ) match _x
-    //x
-    as i64_	{ 65535
-    :
-    // @lengthOf(
-    u8x , } ,
-char[]
-    a1 // @lengthOf(
-, Foo { u8x{ char[]
-Logon
-    `// not a comment`	,}, match metadata as u128 { // trailing space 
-42 : u8x
-, 65535 : f32a
-    } //x
-, asx// " ++ [128512]%N ++ runes_of_ascii " emoji
-@lengthOf( matchKey  ) ,} , roots @calculatedFrom( // packet A { u8 x, }
-""a\""b"" )
-,	zchar[
-7] int	, repeat pack	trueish ,
-    }
-")).
-Eval vm_compute in ("<<<M1692>>>" ++ check (runes_of_ascii "root packet asx {
-    // `tick` ""quote"" 'q'
-    f32a,
-    @calculatedFrom(""abc"")
-    zchar[65535] metadata `
-        `,
-    @calculatedFrom(""CRC32"")
-    Header `doc`,
-    match f32a as msg_type {
-        [""\n""] : charz,
-        // @lengthOf(
-        0123456789 : pack,
-        //x
-        [
-            4294967296, ""packet"", """", ""`tick`"", ""CRC32"",
-            ""\n"", ""it's"", ""it's""
-        ] : charz,
-        42 : leftPad,
-        [
-            255, 7, ""packet"", ""{,}"", ""\" ++ [233]%N ++ runes_of_ascii """,
-            ""1"", ""1""
-        ] : msg_type,
-        [""" ++ [128512]%N ++ runes_of_ascii """] : i64_,
-    },
-}
-
-packet body {
-}
-
-root packet i64_ {
-    uint16 Header @calculatedFrom(""" ++ [233]%N ++ runes_of_ascii "t" ++ [233]%N ++ runes_of_ascii """) ``,
-    float64 string_ @calculatedFrom(""`tick`""),
-    repeat zchar[1] packetx `it's`,
-}//	t")).
-Eval vm_compute in ("<<<M216>>>" ++ check (runes_of_ascii "// " ++ [27880; 37322]%N ++ runes_of_ascii "
-packet chars {match
-charz
-as
-    // trailing space 
-    A // trailing space 
-{0123456789: rootA ,
-    42
-:
-    x , ""1"" :Logon , 7 :u , ""\n"" : packetx , }, char[]MetaDataX
-@calculatedFrom(""""
-) `" ++ [233]%N ++ runes_of_ascii "`
-    // trailing space 
-    ,	@leftPad( ' ' )  char[] Foo,
-    crc , f64 string_ , // " ++ [128512]%N ++ runes_of_ascii " emoji
-char[]
-packetx,i64 u8x@lengthOf(  stringy ) `// not a comment`, repeat zchar {
-repeat
-A _x , lengthOf	@lengthOf( u8x
-) ,	match A as matchKey { 3 :Z9_ , ""// no comment"": As 00 //x
-:
-i64_ ,
-// a // b
-// " ++ [128512]%N ++ runes_of_ascii " emoji
-""a\\""  :i64_ , [ ""`tick`""/// triple
-] : T ,
-    }
-,
-// a // b
-// packet A { u8 x, }
-uint32 T
-`" ++ [28040; 24687; 31867; 22411]%N ++ runes_of_ascii "`
-    , }
-    , uint64
-    /// triple
-    charz
-, }")).
-Eval vm_compute in ("<<<M1392>>>" ++ check (runes_of_ascii "
-options
-
-    {LittleEndian
-	=
-
-false;
-
-    ArrayPrefixLenType 
-= 
-u8 ;FixedStringPadFromLeft=	true
-;  FixedStringPadChar
-    ='0' ;
-    }packet Heartbeat
-    {
-
-string
-lastPx , uint8	Qty
-	,  i64 Acct ,
-    char[ 4]
-
-    Ref, } packet  Fill { uint8 Ref, Heartbeat ,
-	f32
-OrderId	, repeat 
-f32 x
 , 
-}
+[	""a\""b""
+, ""abc""	,""a\\""
+,  ""abc"",
+    // packet A { u8 x, }
+  // " ++ [128512]%N ++ runes_of_ascii " emoji
+"""" 
 
+// packet A { u8 x, }
+  /// triple
+  ]
+    : u8x, }
+
+, }	,repeat falsey
+{
+	rootA
+
+tag 
+, zchar[  /// triple
+  0
+    ]  falsey
+,} ,
+charz  a1
+
+    `{ , }`
+
+, }
 root
 
-    packet Order{
-zchar[ 
-2
-]
-
-OrderId, zchar[	2]  Acct,	zchar[ 1
-    ]
-    Note ,
-
-    zchar[ 
-9
-]
-
-Qty,
-
-string  price  ,string tag7 
-,  u32
-x,match x  as Body {
-123
-	:
-
-    Fill , 112 : Heartbeat
-
-, 
-},
-
-u32 
-seqNo
-
-@calculatedFrom(
-
-    ""CRC32"" 
-) ,
-    }")).
-Eval vm_compute in ("<<<M1736>>>" ++ check (runes_of_ascii "// top
-packet A {
-    // c2
-    u8 a,// c5
-}// c6a
-
-// c6b
-packet B {
-    // c9
-    u16 b,
-}// c13a
-
-// c13b
-packet C {
-    // c16
-    u32 c,// c19a
-}
-
-// c20
-root packet M {
-    u16 Kc,
-    // c27
-    u16 Kb,// c30
-    u16 Ka,
-    match Kc as X {
-        // c38
-        9 : A,
-        10 : B,
-    },
-    match Kb as Y {
-        2 : C,
-        // c57
-        1 : A,
-        // c61a
-    },// c63a
-    // c63b
-    match Ka as Z {
-        // c68
-        1 : B,
-        // c72
-    },// c74
-    A,// c76
-    B,
-    // c78
-    C,// c80
-}")).
-Eval vm_compute in ("<<<M193>>>" ++ check (runes_of_ascii "
-root packet lengthOf{
-    char[ 3 ] Pad ,	@rightPad
-    (  '0'
-)
-    crc `doc` ,i32 //x
-uint8x
-,	zchar { match Logon  as int { [ 0 , """ ++ [233]%N ++ runes_of_ascii "t" ++ [233]%N ++ runes_of_ascii """] :o , ""// no comment"" :len ,
-} , asx
-{
-    //x
-    char[	10 ]
-u128 // a // b
-@lengthOf(  x_y_z)`say ""hi""`, }
-/// triple
-//
-, char[
-1 ] A, u// c
-chars
-    `` , }, repeat matchKey
-{ //x
-string trueish@calculatedFrom(
-    ""a	b""  )  , repeat
-    // packet A { u8 x, }
-    i8 msg_type `it's` ,	} , /// triple
-}
-packet float { }")).
-Eval vm_compute in ("<<<M1193>>>" ++ check (runes_of_ascii "// top
-MetaData
-    // c0
-uint8x // c1
-{ char[]
-    // c3
-f32a // c4a
-  // c4b
-`// not a comment`
-    // c5
-, // c6a
-  // c6b
-float32 // c7
-roots
-    // c8
-, // c9
-char[ // c10a
-  // c10b
-7 // c11
-] // c12
-u8x // c13
-, // c14a
-  // c14b
-zchar[
-    // c15
-10
-    // c16
-] // c17
-f32a // c18
-, // c19a
-  // c19b
-u64
-    // c20
-pack // c21a
-  // c21b
-, u16
-    // c23
-pack // c24a
-  // c24b
-,
-    // c25
-}
-    // c26
+packet/// triple
+		Header	{}
 ")).
-Eval vm_compute in ("<<<M1897>>>" ++ check (runes_of_ascii "
-options
-{  LittleEndian	=true ;  StringPrefixLenType
-
-    =
-u16
-	; FixedStringPadChar
-    =' ' ;
-}
-
-    packet  Logon { @leftPad
-	(
-
-'0'
-
-    )
-    char[ 
-10]
-
-tag7 ,
-
-} root
-packet Ack
-	{
-int32 
-Px
-
-    ,  uint16 count , 
-string Qty
-, 
-string
-
-    OrderId , string	Flags , u8
-
-    x
-    ,  match	x  as 
-Body	{ [
-
-    58
-,169
-]
-	: Logon
-    , } , 
-}
-")).
-Eval vm_compute in ("<<<M178>>>" ++ check (runes_of_ascii "packet // c
-As
-{@tag( 42
-    )
-    repeat Logon	uint8x
-// " ++ [128512]%N ++ runes_of_ascii " emoji
-//
-``, repeat int32
-    x_y_z ,char[7 // trailing space 
-]	pack , repeat string crc
-/// triple
-// c
-`// not a comment`
-, @calculatedFrom(
-    ""`tick`""
-    ) @tag( 1 )match
+Eval vm_compute in ("<<<M13>>>" ++ check (runes_of_ascii "root
+    packet	roots{ // `tick` ""quote"" 'q'
+} options	{	asx =
+    ""\n"" ; x_y_z =
+3 ;rootA = ""CRC32""
+    ;float=char  T = false
+; }
+packet falsey {
+body { match u8x as /// triple
+string_{ [
+42,7 ,65535
+    ,
+    3 ,
+    42 ,7 , ""1""
+    , ""packet"" ]:
+    // `tick` ""quote"" 'q'
+    i64_ , [ ""abc""]
+    :  Foo ,	""a\\""
+    :
+roots ,
+    4294967296 :	stringy	}
+    , //x
+asx
+`{ , }` // " ++ [128512]%N ++ runes_of_ascii " emoji
+, i8
+charz@lengthOf( // trailing space 
+x_y_z)// trailing space 
+`a\` ,}
     // @lengthOf(
-    chars as
-MetaDataX { 4294967296 : // @lengthOf(
-T ,
-} /// triple
-,
+    , @tag( 65535 ) i64_ @lengthOf( tag )`u8 x,`
+// a // b
+//	t
+,Z9_@lengthOf( int )
+, @calculatedFrom( ""a\""b""
+)uint16  stringy @lengthOf( trueish ) , Logon	{string  Logon `say ""hi""` , packetx
+i64_ , match msg_type as	float
+{ ""\n"" : i64_,	[
+""" ++ [128512]%N ++ runes_of_ascii """
+    ]
+:
+metadata , // `tick` ""quote"" 'q'
+[
+// trailing space 
+// " ++ [128512]%N ++ runes_of_ascii " emoji
+10, ""1""  ]
+:zchar ,
 }
+    , //x
+}
+    //x
+    , Packet
+    @calculatedFrom(""CRC32"" ), }
+")).
+Eval vm_compute in ("<<<M298>>>" ++ check (runes_of_ascii "
+options  { } options
+    {  uint8x =
+// @lengthOf(
+// " ++ [27880; 37322]%N ++ runes_of_ascii "
+42 uint8x = /// triple
+""abc"" ; //x
+_x='0'
+    }
+    packet u8x
+    { zchar[ 1 ] As
+`crlf
+line`, match metadata as float  { ""packet"" ://
+trueish , } , repeat
+rootA
+, repeat metadata repeatCount// trailing space 
+, @rightPad( // `tick` ""quote"" 'q'
+'0') i64 body `// not a comment`
+, @tag( 1) string string_
+    `line1
+line2` ,
+uint8 u8x`" ++ [28040; 24687; 31867; 22411]%N ++ runes_of_ascii "` ,
+packetx u128,	u tag , repeat Logon zchar
+`` ,  }packet zchar
+{
+    }	packet	MetaDataX { @lengthOf(
+Packet ) repeatCount  int
+`doc` , @tag(
+7 ) packetx @calculatedFrom( ""a\""b""// c
+) , match msg_type as x { ""\n"" : calculatedFrom }, //x
+@leftPad (// packet A { u8 x, }
+'\x00')@lengthOf( MetaDataX // c
+)
+    // a // b
+    char[007
+] a1`tab	here`, As
+    @calculatedFrom( ""`tick`"") `// not a comment`,} 	 ")).
+Eval vm_compute in ("<<<M354>>>" ++ check (runes_of_ascii "options {
+} packet u8x{ string uint8x@calculatedFrom(""{,}"" )	`crlf
+line`	,} MetaData falsey{
+    Logon packetx `tab	here` , } root packet o
+{ falsey@calculatedFrom(
+//x
+// " ++ [27880; 37322]%N ++ runes_of_ascii "
+""" ++ [28040; 24687]%N ++ runes_of_ascii """ ) ,	@tag(0123456789) // `tick` ""quote"" 'q'
+char[
+    // `tick` ""quote"" 'q'
+    0123456789
+]	u128@calculatedFrom(
+""{,}"" ) ,
+    @tag(
+    00)
+@lengthOf( stringy
+) @tag( 4294967296
+)  rootA Header,  @lengthOf(As
+    )
+    repeat leftPad `// not a comment`// c
+, i8 leftPad @calculatedFrom( """" ) , @tag( 10
+) zchar[ 007
+] packetx
+@lengthOf( // packet A { u8 x, }
+u8x )	`" ++ [28040; 24687; 31867; 22411]%N ++ runes_of_ascii "` ,
+}packet	options1 {
+//	t
+// trailing space 
+falsey// packet A { u8 x, }
+{ //	t
+zchar[ 3
+    ]// " ++ [128512]%N ++ runes_of_ascii " emoji
+roots
+//
+// a // b
+,
+    u32 Header // c
+,
+} ,// a // b
+}")).
+Eval vm_compute in ("<<<M1122>>>" ++ check (runes_of_ascii "// top
+options // c0
+{ // c1
+uint8x // c2
+= // c3
+007 // c4
+; // c5
+lengthOf // c6
+= // c7
+i8 // c8
+; // c9
+} // c10
+packet // c11
+i64_ // c12
+{ // c13
+@calculatedFrom( // c14
+""1"" // c15
+) // c16
+@tag( // c17
+3 // c18
+) // c19
+@lengthOf( // c20
+rootA // c21
+) // c22
+repeat // c23
+int8 // c24
+Packet // c25
+`u8 x,` // c26
+, // c27
+} // c28
+root // c29
+packet // c30
+stringy // c31
+{ // c32
+@rightPad // c33
+( // c34
+' ' // c35
+) // c36
+repeat // c37
+char[ // c38
+10 // c39
+] // c40
+repeatCount // c41
+, // c42
+@tag( // c43
+255 // c44
+) // c45
+float64 // c46
+msg_type // c47
+@calculatedFrom( // c48
+""packet"" // c49
+) // c50
+, // c51
+} // c52
+")).
+Eval vm_compute in ("<<<M1294>>>" ++ check (runes_of_ascii "// top
+packet // c0a
+  // c0b
+A // c1
+{
+    // c2
+u8
+    // c3
+a // c4a
+  // c4b
+, } // c6a
+  // c6b
+packet // c7a
+  // c7b
+B // c8a
+  // c8b
+{ u16 // c10
+b // c11a
+  // c11b
+,
+    // c12
+}
+    // c13
+root // c14
+packet P // c16
+{ // c17a
+  // c17b
+u8 K1 // c19
+, // c20
+u8 // c21a
+  // c21b
+K2 // c22a
+  // c22b
+, // c23a
+  // c23b
+match // c24a
+  // c24b
+K1 as
+    // c26
+M1 // c27a
+  // c27b
+{ // c28a
+  // c28b
+1
+    // c29
+:
+    // c30
+A // c31
+, // c32a
+  // c32b
+} , match K2
+    // c36
+as
+    // c37
+M2 // c38
+{ 1 : // c41a
+  // c41b
+B
+    // c42
+, } ,
+    // c45
+} // c46
+")).
+Eval vm_compute in ("<<<M1300>>>" ++ check (runes_of_ascii "// top
+packet // c0
+A { u8
+    // c3
+a , // c5a
+  // c5b
+} // c6
+packet
+    // c7
+B { // c9a
+  // c9b
+u16 // c10a
+  // c10b
+b // c11
+, // c12
+}
+    // c13
+root packet // c15a
+  // c15b
+P { // c17
+u8 // c18
+K // c19
+, // c20
+match // c21
+K // c22
+as // c23
+M // c24a
+  // c24b
+{
+    // c25
+[ // c26
+1
+    // c27
+,
+    // c28
+2 // c29a
+  // c29b
+] // c30a
+  // c30b
+: // c31a
+  // c31b
+A // c32a
+  // c32b
+, 3
+    // c34
+: // c35
+B // c36a
+  // c36b
+, 7 // c38
+: // c39a
+  // c39b
+A // c40
+, // c41
+} ,
+    // c43
+}
+    // c44
+")).
+Eval vm_compute in ("<<<M1764>>>" ++ check (runes_of_ascii "// top
+options {
+    // c1
+    uint8x = 007;
+    lengthOf = i8;// c9a
+    // c9b
+}
+
+packet i64_ {
+    // c13
+    @calculatedFrom(""1"")
+    // c16
+    @tag(3)
+    // c19
+    @lengthOf(rootA)
+    // c22
+    repeat int8 Packet `u8 x,`,// c27
+}// c28a
+
+// c28b
+root packet stringy {
+    // c32a
+    // c32b
+    @rightPad(' ')
+    // c36
+    repeat char[10] repeatCount,// c42
+    @tag(255)
+    // c45
+    float64 msg_type @calculatedFrom(""packet""),// c51a
+    // c51b
+}// c52")).
+Eval vm_compute in ("<<<M14>>>" ++ check (runes_of_ascii "MetaData u128
+    {// a // b
+string zchar //x
+`two words` ,u16 packetx
+`a\` , char[ 1 ] Logon	, len crc, char[
+7]i8i8,char[]calculatedFrom,
+} // @lengthOf(
+MetaData u
+    { u// " ++ [128512]%N ++ runes_of_ascii " emoji
+u128
+, //	t
+}root packet metadata { }options	{ matchKey =
+    255
+;
+x_y_z
+= 007 crc=int16
+; zchar =// c
+char[42 ]
+; int
+= true ;
+} options  {
+Header = """ ++ [128512]%N ++ runes_of_ascii """
+;
+len
+    = ' ' ; matchKey= """" ;MetaDataX =' '
+; o
+    = '\x00' ; }
+/// triple
+")).
+Eval vm_compute in ("<<<M303>>>" ++ check (runes_of_ascii "  packet
+    tag{ } packet
+    //
+    packetx { @calculatedFrom( ""x y""
+    )@tag(
+    42 )
+@lengthOf(
+    As  ) char a1`two words` ,
+    @leftPad
+(
+    '\x00' )
+    @tag(10)
+@lengthOf( u)
+    char[] falsey // " ++ [128512]%N ++ runes_of_ascii " emoji
+,
+    // " ++ [27880; 37322]%N ++ runes_of_ascii "
+    }//
+MetaData
+f32a {
+    string u128 , roots
+    stringy , Header body,
+    float options1
+    //	t
+    `it's`
+    ,	i8i8 options1
+`" ++ [28040; 24687; 31867; 22411]%N ++ runes_of_ascii "`
+    ,
+}")).
+Eval vm_compute in ("<<<M1927>>>" ++ check (runes_of_ascii "
+packet	A
+{u8
+
+    a ,
+    }packet
+B
+
+    { u16
+
+b,
+
+}
+    packet
+    C  {
+
+u32 c ,
+    }
+root	packet
+
+M { u16
+    Kc
+,u16 
+Kb , u16 Ka ,
+
+    match	Kc
+as
+
+    X { 9  : 
+A
+
+,
+
+    10
+: 
+B
+	,
+
+    }
+,  match 
+Kb
+
+    as Y  {
+2 :  C 
+,
+
+1 :A,}
+    , 
+match
+    Ka 
+as
+    Z {
+	1
+
+    :
+
+    B	,
+}
+
+,  A,
+B	,
+
+C
+, }
 ")).
 Eval vm_compute in ("<<<M1376>>>" ++ check (runes_of_ascii "options {
     LittleEndian = true;
@@ -688,8 +833,8 @@ packet Logout {
     u16 reason,
 }
 root packet Frame {
-    i8 Kind,
-    i8 Kind2,
+    u8 Kind,
+    u8 Kind2,
     match Kind as Body {
         1 : Logon,
         [2, 3, 4] : Logout,
@@ -700,74 +845,113 @@ root packet Frame {
     },
 }
 ")).
-Eval vm_compute in ("<<<M1785>>>" ++ check (runes_of_ascii "packet repeatCount {
-    @calculatedFrom(""abc"")
-    zchar[0] MetaDataX `
-        `,
-    string_ @calculatedFrom(""1""),
-    match string_ as msg_type {
-        [65535, 7, 255, ""a	b""] : matchKey,
-        10 : options1,
-        3 : Logon,
-    },
-    // " ++ [27880; 37322]%N ++ runes_of_ascii "
-    packetx `a\`,
-}")).
-Eval vm_compute in ("<<<M234>>>" ++ check (runes_of_ascii "//	t
-options{
-    chars=true As= char[]
-// trailing space 
-// " ++ [128512]%N ++ runes_of_ascii " emoji
-; /// triple
-x_y_z	= 7; // " ++ [27880; 37322]%N ++ runes_of_ascii "
-i8i8 = true packetx = /// triple
-' ' } root packet	x_y_z {repeat
-    char[
-    42
-    //x
-    ] //	t
-Pad,
-    }
-// packet A { u8 x, }
-")).
-Eval vm_compute in ("<<<M249>>>" ++ check (runes_of_ascii "
-packet
-rootA {
-} // trailing space 
-packet f32a //	t
-{ match
-zchar as zchar
-    {	65535 : f32a , 7 : charz// trailing space 
-,
-""{,}""
-//	t
-//x
-: Header , 42
-    :a1 // packet A { u8 x, }
-, }
-, }
-")).
-Eval vm_compute in ("<<<M309>>>" ++ check (runes_of_ascii "packet
-    // `tick` ""quote"" 'q'
-    _x {//
-repeat zchar[ 1 ] metadata
-    ,@leftPad
-    ( ' ' ) @lengthOf( T )@lengthOf(
-Z9_ )
-    char[] As// @lengthOf(
-,string f32a  , }
-")).
-Eval vm_compute in ("<<<M431>>>" ++ check (runes_of_ascii "packet uint8x
-{ match pack
-    as msg_type	{
-    0123456789 0123456789 :	float
+Eval vm_compute in ("<<<M1314>>>" ++ check (runes_of_ascii "packet MDSnapshotZZ {
+    u8 a,
 }
-,
-} packet //	t
-a1
-    { } options {packetx
-    = '\x00'	; u128= ""a	b""  ; }
+packet OrderACK {
+    u16 b,
+}
+packet HTTPServerInfo {
+    string s,
+}
+root packet FIXMsg {
+    u8 KType,
+    MDSnapshotZZ,
+    repeat OrderACK,
+    match KType as Body {
+        1 : HTTPServerInfo,
+        2 : OrderACK,
+    },
+}
 ")).
+Eval vm_compute in ("<<<M1313>>>" ++ check (runes_of_ascii "options	{ FixedStringPadChar
+=
+
+'0';  }packet
+Q
+{ zchar[4  ]
+
+z
+	, @rightPad  ('\x00'  )
+
+    char[ 
+3
+]
+n , char[
+    5 ]  d,
+}
+
+    root
+packet
+R
+
+{
+
+    Q 
+, zchar[8 
+]top
+
+    ,	repeat zchar[	2
+]
+	zs
+
+    , 
+}")).
+Eval vm_compute in ("<<<M1868>>>" ++ check (runes_of_ascii "packet
+
+    Logon
+{ string user
+
+    ,
+}
+root 
+packet
+	Frame {
+u8
+K	,	match
+
+K
+as
+	Body
+	{1
+: Logon
+,
+    2  :Logout  ,  }  ,
+	Tail , }
+
+packet 
+Logout{ 
+u16 
+reason
+,}
+packet
+Tail
+
+{
+	u32 crc
+, }
+")).
+Eval vm_compute in ("<<<M1440>>>" ++ check (runes_of_ascii "packet A {
+    match k as n {
+        ""\
+        "" : B,
+        [""\
+        "", 1] : C,
+        [
+            1, 2, 3, 4, 5,
+            ""\
+            ""
+        ] : D,
+    },
+}")).
+Eval vm_compute in ("<<<M1750>>>" ++ check (runes_of_ascii "packet calculatedFrom {
+    uint8x {
+        body `line1
+                line2`,
+        string crc @lengthOf(uint8x),
+        char[] As @lengthOf(Pad),
+    },
+}")).
 Eval vm_compute in ("<<<M528>>>" ++ check (runes_of_ascii "packet uint8x
 { match pack
     as msg_type	{
@@ -790,8 +974,19 @@ a1
     { } options i8 packetx
     = '\x00'	; u128= ""a	b""  ; }
 ")).
-Eval vm_compute in ("<<<M407>>>" ++ check (runes_of_ascii "packet uint8x
-{ pack match
+Eval vm_compute in ("<<<M412>>>" ++ check (runes_of_ascii "packet uint8x
+{ match as
+    pack msg_type	{
+    0123456789 :	float
+}
+,
+} packet //	t
+a1
+    { } options {packetx
+    = '\x00'	; u128= ""a	b""  ; }
+")).
+Eval vm_compute in ("<<<M400>>>" ++ check (runes_of_ascii "packet uint8x
+ match pack
     as msg_type	{
     0123456789 :	float
 }
@@ -801,31 +996,22 @@ a1
     { } options {packetx
     = '\x00'	; u128= ""a	b""  ; }
 ")).
-Eval vm_compute in ("<<<M1872>>>" ++ check (runes_of_ascii "  MetaData 
-leftPad { 
-chars  MetaDataX
-,	}
-packet repeatCount
-    {
+Eval vm_compute in ("<<<M1464>>>" ++ check (runes_of_ascii "
+MetaData 
+leftPad { chars 
+MetaDataX  ,
+	} 
+packet
+repeatCount
 
-char[
-255
-	] 	 // c
-uint8x 
-`" ++ [233]%N ++ runes_of_ascii "`
-    ,
-}	MetaData  pack	{
+    { char[ 255 ] 
 
-    As
-Foo , } ")).
-Eval vm_compute in ("<<<M698>>>" ++ check (runes_of_ascii "// @lengthOf(
-packet i8i8 { u128 o , }
-options { MetaDataX = true;
-    BodyLength =""packet"" x_y_z= 007
-crc //x
-= ""abc"" ;
-    msg_type =
-i16 i16 }")).
+    // c
+    uint8x
+	`" ++ [233]%N ++ runes_of_ascii "`  ,
+} MetaData pack
+	{As Foo ,
+    }")).
 Eval vm_compute in ("<<<M500>>>" ++ check (runes_of_ascii "packet uint8x
 { match pack
     as msg_type	{
@@ -837,23 +1023,16 @@ a1
     { } options {packetx
     = 	; u128= ""a	b""  ; }
 ")).
-Eval vm_compute in ("<<<M1883>>>" ++ check (runes_of_ascii "MetaData
-	leftPad
-    { chars MetaDataX
+Eval vm_compute in ("<<<M420>>>" ++ check (runes_of_ascii "packet uint8x
+{ match pack
+    as 	{
+    0123456789 :	float
+}
 ,
-    }packet repeatCount
-	{ char[
-	// c
-  255]
-
-    uint8x 
-`" ++ [233]%N ++ runes_of_ascii "`	, } MetaData
-	pack
-
-{	As
-
-Foo 
-, }
+} packet //	t
+a1
+    { } options {packetx
+    = '\x00'	; u128= ""a	b""  ; }
 ")).
 Eval vm_compute in ("<<<M658>>>" ++ check (runes_of_ascii "// @lengthOf(
  i8i8 { u128 o , }
@@ -863,121 +1042,139 @@ crc //x
 = ""abc"" ;
     msg_type =
 i16 }")).
-Eval vm_compute in ("<<<M1608>>>" ++ check (runes_of_ascii "MetaData leftPad {
-    chars MetaDataX,
-}
+Eval vm_compute in ("<<<M144>>>" ++ check (runes_of_ascii "  MetaData falsey {o i8i8
+,char[]
+pack  ,
+float32 lengthOf , len //x
+BodyLength, BodyLength o
+, stringy  u128	`crlf
+line` , } 	 ")).
+Eval vm_compute in ("<<<M1947>>>" ++ check (runes_of_ascii "
+packet
+uint8x
+	{match  pack
+    as 
+msg_type {
 
-packet repeatCount {
-    // c
-    char[255] uint8x `" ++ [233]%N ++ runes_of_ascii "`,
-}
+    0123456789
 
-MetaData pack {
-    As Foo,
+:
+    float
+
+    } ,  }
+    packet 	 //	t
+    	a1{
+
 }")).
-Eval vm_compute in ("<<<M1194>>>" ++ check (runes_of_ascii "// top
-packet // c0
-body // c1
-{ // c2
-i32 // c3
-f32a // c4
-`{ , }` // c5
-, // c6
-} // c7
-options // c8
-{ // c9
-} // c10
+Eval vm_compute in ("<<<M1149>>>" ++ check (runes_of_ascii "MetaData leftPad { chars // c
+MetaDataX , } packet repeatCount { char[ 255 ] uint8x `" ++ [233]%N ++ runes_of_ascii "` , } MetaData pack { As Foo , }")).
+Eval vm_compute in ("<<<M1181>>>" ++ check (runes_of_ascii "MetaData leftPad { chars MetaDataX , } packet repeatCount { char[ 255 ] uint8x `" ++ [233]%N ++ runes_of_ascii "` , } MetaData pack { // c
+As Foo , }")).
+Eval vm_compute in ("<<<M1723>>>" ++ check (runes_of_ascii "packet
+    A 
+{ match
+
+    k  as  n 
+{
+	[1,	22
+, ""c c"" ,4,
+    5  ]  :
+
+    B
+
+    ,
+2
+
+    :	C }
+, }
+
 ")).
-Eval vm_compute in ("<<<M1161>>>" ++ check (runes_of_ascii "MetaData leftPad { chars MetaDataX , } packet repeatCount { // c
-char[ 255 ] uint8x `" ++ [233]%N ++ runes_of_ascii "` , } MetaData pack { As Foo , }")).
-Eval vm_compute in ("<<<M906>>>" ++ check (runes_of_ascii "packet A {
-  match k as n {
-    [""a"", ""bb"", ""c c"", ""d"", ""e"", ""f"", ""g"", ""h"", ""i"", ""j"", ""k"", ""l""] : B,
-    2 : C
-  },
-}")).
-Eval vm_compute in ("<<<M925>>>" ++ check (runes_of_ascii "packet A {
-    u16 len @lengthOf(body) `a
-b`,
-    u32 crc @calculatedFrom(""CRC32"") `a
-b`,
+Eval vm_compute in ("<<<M949>>>" ++ check (runes_of_ascii "packet A {
+    u16 len @lengthOf(body) `x
+`,
+    u32 crc @calculatedFrom(""CRC32"") `x
+`,
     string body,
 }")).
-Eval vm_compute in ("<<<M1554>>>" ++ check (runes_of_ascii "packet u128 {
-    @calculatedFrom(""x y"")
-    @rightPad(' ')
-    char[42] Header @calculatedFrom(""abc""),
+Eval vm_compute in ("<<<M920>>>" ++ check (runes_of_ascii "packet A {
+    Inner {
+        u8 x `a
+b`,
+        Deep {
+            u8 y `a
+b`,
+        },
+    },
 }")).
-Eval vm_compute in ("<<<M896>>>" ++ check (runes_of_ascii "packet A {
-  match k as n {
-    [1, ""bb"", 007, ""d"", 5, ""f"", 7, ""h"", 9, ""j"", 11] : B
-    2 : C
-  },
-}")).
-Eval vm_compute in ("<<<M883>>>" ++ check (runes_of_ascii "packet A {
-  match k as n {
-    [1, ""bb"", 007, ""d"", 5, ""f"", 7, ""h"", 9, ""j""] : B
-    2 : C
-  },
-}")).
-Eval vm_compute in ("<<<M580>>>" ++ check (runes_of_ascii "
-packet
-    asx {match u128 char[ lengthOf
-{
-//	t
-// `tick` ""quote"" 'q'
-255 : x ,
-    } ,	}")).
-Eval vm_compute in ("<<<M636>>>" ++ check (runes_of_ascii "
-packet
-    asx {match u128 as lengthOf
-{
-//	t
-// `ti/ck` ""quote"" 'q'
-255 : x ,
-    } ,	}")).
-Eval vm_compute in ("<<<M575>>>" ++ check (runes_of_ascii "
-packet
-    asx {match u64 as lengthOf
-{
-//	t
-// `tick` ""quote"" 'q'
-255 : x ,
-    } ,	}")).
-Eval vm_compute in ("<<<M570>>>" ++ check (runes_of_ascii "
-packet
-    asx {{ u128 as lengthOf
-{
-//	t
-// `tick` ""quote"" 'q'
-255 : x ,
-    } ,	}")).
-Eval vm_compute in ("<<<M815>>>" ++ check (runes_of_ascii "packet A {
-  match k as n {
-    [""a"", ""bb"", ""c c"", ""d"", ""e""] : B,
-    2 : C
-  },
-}")).
-Eval vm_compute in ("<<<M1886>>>" ++ check (runes_of_ascii "packet Inner {
-    u8 a,
-}
+Eval vm_compute in ("<<<M1954>>>" ++ check (runes_of_ascii "packet
 
-root packet P {
-    repeat Inner items,
-    u8 x,
-}")).
-Eval vm_compute in ("<<<M345>>>" ++ check (runes_of_ascii "
-options
-{ } // " ++ [128512]%N ++ runes_of_ascii " emoji
-options { float // `tick` ""quote"" 'q'
-=	65535 }
+    A 
+{ 
+u16 // a
+
+len // b
+@lengthOf(// c
+  	body  // d
+
+)	// e
+	`d`  // f
+	  , }
 ")).
-Eval vm_compute in ("<<<M790>>>" ++ check (runes_of_ascii "packet A {
+Eval vm_compute in ("<<<M630>>>" ++ check (runes_of_ascii "
+packet
+    a@tagsx {match u128 as lengthOf
+{
+//	t
+// `tick` ""quote"" 'q'
+255 : x ,
+    } ,	}")).
+Eval vm_compute in ("<<<M870>>>" ++ check (runes_of_ascii "packet A {
   match k as n {
-    [""a"", ""bb"", ""c c""] : B
+    [1, ""bb"", 007, ""d"", 5, ""f"", 7, ""h"", 9] : B
     2 : C
   },
 }")).
+Eval vm_compute in ("<<<M849>>>" ++ check (runes_of_ascii "packet A {
+  match k as n {
+    [""a"", ""bb"", 007, ""d"", ""e"", 66, ""g""] : B,
+    2 : C
+  },
+}")).
+Eval vm_compute in ("<<<M771>>>" ++ check (runes_of_ascii "true @tag( root : repeat @calculatedFrom( match f64 int32 ] { zchar[ packet @lengthOf(")).
+Eval vm_compute in ("<<<M844>>>" ++ check (runes_of_ascii "packet A {
+  match k as n {
+    [1, ""bb"", 007, ""d"", 5, ""f"", 7] : B
+    2 : C
+  },
+}")).
+Eval vm_compute in ("<<<M972>>>" ++ check (runes_of_ascii "packet A {
+    u32 crc @calculatedFrom(""\
+""),
+    @calculatedFrom(""\
+"") u8 y,
+}")).
+Eval vm_compute in ("<<<M1744>>>" ++ check (runes_of_ascii "  packet
+A  {  }
+
+    packet B
+{ 
+}
+MetaData M
+    { 
+} options
+    {
+}
+")).
+Eval vm_compute in ("<<<M1879>>>" ++ check (runes_of_ascii "root
+packet
+
+    x {
+    roots
+
+@calculatedFrom( ""a\""b"" )
+,
+    }
+")).
 Eval vm_compute in ("<<<M924>>>" ++ check (runes_of_ascii "packet A {
     B b `a
 b`,
@@ -986,62 +1183,62 @@ b`,
     repeat B bs `a
 b`,
 }")).
-Eval vm_compute in ("<<<M785>>>" ++ check (runes_of_ascii "packet A {
+Eval vm_compute in ("<<<M189>>>" ++ check (runes_of_ascii "
+packet
+i64_ { @tag( 0123456789 ) repeat u16 stringy
+,
+    }")).
+Eval vm_compute in ("<<<M773>>>" ++ check (runes_of_ascii "packet A {
   match k as n {
-    [""a"", 22] : B
+    [1] : B,
     2 : C
   },
 }")).
-Eval vm_compute in ("<<<M1525>>>" ++ check (runes_of_ascii "root packet string_ {
-    char[] matchKey,
-}
-
-packet x {
-}")).
-Eval vm_compute in ("<<<M1632>>>" ++ check (runes_of_ascii "root packet x {
-    roots @calculatedFrom(""a\""b""),
-}")).
-Eval vm_compute in ("<<<M333>>>" ++ check (runes_of_ascii "  MetaData
-x_y_z{ }	packet chars	{	} options {}
-")).
-Eval vm_compute in ("<<<M951>>>" ++ check (runes_of_ascii "MetaData M {
-    u8 x `x
-`,
-    T t `x
-`,
-}")).
-Eval vm_compute in ("<<<M1400>>>" ++ check (runes_of_ascii "root packet A {
-    u8 x `
-        `,
-}")).
-Eval vm_compute in ("<<<M928>>>" ++ check (runes_of_ascii "root packet A {
-    u8 x `a
-b`,
-}")).
-Eval vm_compute in ("<<<M276>>>" ++ check (runes_of_ascii "MetaData repeatCount { }
-//	t
-")).
-Eval vm_compute in ("<<<M1647>>>" ++ check (runes_of_ascii "
-
-  packet  A {
-}// a
-// b
-")).
-Eval vm_compute in ("<<<M1496>>>" ++ check (runes_of_ascii "MetaData
-u
-
+Eval vm_compute in ("<<<M1220>>>" ++ check (runes_of_ascii "packet body { i32 f32a `{ , }` , } options { }
 // c
-	{ } ")).
-Eval vm_compute in ("<<<M1724>>>" ++ check (runes_of_ascii "// top
-MetaData u {
-}")).
-Eval vm_compute in ("<<<M278>>>" ++ check (runes_of_ascii "packet Packet { }
 ")).
-Eval vm_compute in ("<<<M1052>>>" ++ check (runes_of_ascii "// c" ++ [65279]%N ++ runes_of_ascii "
+Eval vm_compute in ("<<<M1432>>>" ++ check (runes_of_ascii "options {
+    a = ""x\
+    y"";
+    b = ""x\
+    y""
+}")).
+Eval vm_compute in ("<<<M284>>>" ++ check (runes_of_ascii "
+options{ trueish=
+'0' //	t
+;a1 = u64
+; }")).
+Eval vm_compute in ("<<<M1518>>>" ++ check (runes_of_ascii "root packet A {
+    u8 x `a
+        b`,
+}")).
+Eval vm_compute in ("<<<M50>>>" ++ check (runes_of_ascii "options {
+    Packet =  char[]  }
+")).
+Eval vm_compute in ("<<<M1943>>>" ++ check (runes_of_ascii "packet A {
+    u8 x `d" ++ [8233]%N ++ runes_of_ascii "`,// c" ++ [8233]%N ++ runes_of_ascii "
+}")).
+Eval vm_compute in ("<<<M1076>>>" ++ check (runes_of_ascii "MetaData M {
+}// c
+packet A {}")).
+Eval vm_compute in ("<<<M1880>>>" ++ check (runes_of_ascii "
+// c
+  	MetaData	u
+{ } ")).
+Eval vm_compute in ("<<<M238>>>" ++ check (runes_of_ascii "root packet chars
+{}
+")).
+Eval vm_compute in ("<<<M1041>>>" ++ check (runes_of_ascii "packet A {
+}
+// c 	")).
+Eval vm_compute in ("<<<M1007>>>" ++ check (runes_of_ascii "// c" ++ [8202]%N ++ runes_of_ascii "
 packet A {
 }")).
-Eval vm_compute in ("<<<M1082>>>" ++ check (runes_of_ascii "options { // a
- }")).
-Eval vm_compute in ("<<<M404>>>" ++ check (runes_of_ascii "packet uint8x")).
-Eval vm_compute in ("<<<M995>>>" ++ check (runes_of_ascii "// c" ++ [5760]%N)).
-Eval vm_compute in ("<<<M725>>>" ++ check (runes_of_ascii " ")).
+Eval vm_compute in ("<<<M974>>>" ++ check (runes_of_ascii "packet A {
+}// c ")).
+Eval vm_compute in ("<<<M1438>>>" ++ check (runes_of_ascii "packet Logon{	}
+")).
+Eval vm_compute in ("<<<M732>>>" ++ check (runes_of_ascii "// a
+// b
+")).
+Eval vm_compute in ("<<<M1055>>>" ++ check (runes_of_ascii "// c" ++ [6158]%N)).
